@@ -198,3 +198,27 @@ def accepts(items, n, x):
 @REG.spec([Str], Bool)
 def op_ok(op):
     return (op == '^' or op == '~' or op == '=' or op == '<' or op == '<=' or op == '>' or op == '>=' or op == '!=')
+
+
+# ---- cfg() ------------------------------------------------------------------------------------------
+from pyvc.api import Obj, Dict
+
+
+@REG.spec([Obj, Dict(Str, Str)], Bool, uninterpreted='cfg_sem')
+def sem(ir, cfgs):
+    """denotation of a cfg predicate: name -> presence, name = "value" -> equality of the configured value,
+    not/any/all -> negation, disjunction (false on the empty list), conjunction (true on the empty list).
+    In proofs it is an uninterpreted symbol whose defining equation per node class is the postcondition of the
+    corresponding contract variant of _eval_cfg; natively it is this reference evaluator."""
+    n = type(ir).__name__
+    if n == 'Identifier':
+        return ir.value in cfgs
+    if n == 'Equal':
+        return ir.lhs.value in cfgs and cfgs[ir.lhs.value] == ir.rhs.value
+    if n == 'Not':
+        return not sem(ir.value, cfgs)
+    if n == 'Any':
+        return any(sem(a, cfgs) for a in ir.args)
+    if n == 'All':
+        return all(sem(a, cfgs) for a in ir.args)
+    raise TypeError(n)
